@@ -139,8 +139,108 @@ def violation (p : Snap) (m : MAct) (sk : Bool) (n : Snap) : Option String :=
     else if !intact n then some "unsubscribe:current-conn-broken" else none
   | .admindel => if n.db.isSome || n.watch != p.watch + 1 || !intact n then some "admin-delete:not-deleted" else none
   | .watch =>
-    -- a delete event of the session store disconnects and unregisters the client
-    if n.reg.isSome then some "admin-delete:client-not-disconnected" else none
+    -- a delete event of the session store, whatever its origin, never leaves a registered live
+    -- connection without its session; what else it must (not) do depends on its ORIGIN, which this
+    -- function does not see: `watchViolation` / `violationO` below (extension mqtt, round 2 — before,
+    -- this clause demanded `n.reg = none` for every event, i.e. it REQUIRED that the echo of a
+    -- connection's own delDB disconnects the connection that uses the id by now)
+    if !intact n then some "watch:current-conn-broken" else none
   | .par _ _ => if !intact n then some "race:current-conn-broken" else none
+
+/-! ### the origin of delete events (extension mqtt, round 2)
+
+`Track` is the judge's own account of the queued delete events, kept from the ACTIONS and the
+observed `watch` counter only (not from the model): an `admindel` queues an admin-origin event whose
+victim is the connection registered at that moment; a `drop j` (alone or inside `par`) after which
+the counter has grown queues a teardown-origin event of `j` (= `delDB` in `j`'s own teardown); an
+executed `watch` takes the oldest. `owed` mirrors what a broker that merely COUNTS its own deletes
+(`fixes/C16-own-delete-event.patch`) cannot know: an admin-origin event delivered while a
+teardown-origin event is queued behind it uses up that event's slot (`owed + 1`); the
+teardown-origin event is then handled like a foreign one — the known residual
+(`known_findings.d/C16.json`), classified by its own sig. -/
+
+structure Track where
+  queue : List Origin := []
+  owed : Nat := 0
+
+def countTd (l : List Origin) : Nat := (l.filter Origin.isTeardown).length
+
+/-- the connection whose teardown a macro action contains -/
+def dropOf : MAct → Option Nat
+  | .drop j => some j
+  | .par a b => (dropOf a).orElse (fun _ => dropOf b)
+  | _ => none
+
+def hasAdminDel : MAct → Bool
+  | .admindel => true
+  | .par a b => hasAdminDel a || hasAdminDel b
+  | _ => false
+
+/-- the registered connection, if it is live -/
+def liveReg (p : Snap) : Option Nat := if p.regDisc then none else p.reg
+
+def trackStep (t : Track) (p : Snap) (m : MAct) (sk : Bool) (n : Snap) : Track :=
+  if sk then t else
+  match m with
+  | .watch =>
+    match t.queue with
+    | [] => t
+    | o :: rest =>
+      let expected := countTd t.queue - t.owed      -- what a counting broker still expects
+      match o with
+      | .admin _ => { queue := rest, owed := if 0 < expected then t.owed + 1 else t.owed }
+      | .teardownOf _ => { queue := rest, owed := if expected = 0 then t.owed - 1 else t.owed }
+  | _ =>
+    let added := n.watch - p.watch
+    let o : Origin := match dropOf m with
+      | some j => if hasAdminDel m then Origin.admin (liveReg p) else Origin.teardownOf j
+      | none => Origin.admin (liveReg p)
+    { t with queue := t.queue ++ List.replicate added o }
+
+/-- the event the next executed `watch` delivers, and whether a counting broker would take it for
+a foreign one although it is the echo of an own delete (`owed` covers all queued teardown events) -/
+def Track.head (t : Track) : Option Origin := t.queue.head?
+def Track.overtaken (t : Track) : Bool := decide (countTd t.queue ≤ t.owed)
+
+/-- C16 on the delivery of one delete event of known origin (`p`, `n`: snapshots before / after).
+* admin-origin: the victim — the connection that was registered when the session was deleted —
+  must not be registered and live afterwards ("deleting a session through the admin endpoint
+  disconnects that client");
+* teardown-origin (the echo of connection `j`'s own `delDB`): a registered live connection other
+  than `j` — one that connected, or took the id over, after `j`'s teardown — keeps its
+  registration, and nothing else changes either. -/
+def watchViolation (o : Option Origin) (overtaken : Bool) (p n : Snap) : Option String :=
+  match o with
+  | some (.admin (some v)) =>
+    if n.reg == some v && !n.regDisc then some "admin-delete:client-not-disconnected" else none
+  | some (.admin none) => none
+  | some (.teardownOf j) =>
+    match p.reg with
+    | some k =>
+      if k != j && !p.regDisc then
+        if n.reg != some k || n.regDisc then
+          some (if overtaken then "stale-teardown-event:after-overtaken-admin-event"
+                else "stale-teardown-event:new-connection-disconnected")
+        else if { n with watch := p.watch } != p then some "stale-teardown-event:state-changed"
+        else none
+      else none
+    | none => none
+  | none => none
+
+/-- `violation` with the origin of the delivered event taken into account -/
+def violationO (t : Track) (p : Snap) (m : MAct) (sk : Bool) (n : Snap) : Option String :=
+  match violation p m sk n with
+  | some v => some v
+  | none =>
+    match m with
+    | .watch => if sk then none else watchViolation t.head t.overtaken p n
+    | _ => none
+
+/-! ### macro view of the model with origins -/
+
+/-- all states a macro action can end in, in the model with origins (`ostep`) -/
+def orunMacro (fixed : Bool) (s : OSt) : MAct → List OSt
+  | .par a b => (interleave (expand s.base a) (expand s.base b)).map (orunActs fixed s)
+  | m => [orunActs fixed s (expand s.base m)]
 
 end EgVerif.BrokerSessions
